@@ -112,10 +112,13 @@ func (c *Ctx) Touch(u *Unit) {
 	}
 }
 
-// Need is the vacuity guard: fewer instances than confirmed by hand is a failure.
+// Need is the vacuity guard: fewer instances than confirmed by hand is a violation of the rule
+// (function and closure anchors that cannot be resolved stay UNDECIDED: a rename is not a behaviour change).
 func (c *Ctx) Need(rule, what string, got, min int) bool {
 	if got < min {
-		c.Undecided(rule, what, fmt.Sprintf("unresolved-anchor: found %d instance(s) of %s, expected at least %d", got, what, min))
+		// the instances were confirmed by reading the code and are part of the rule as stated ("these sites exist and each
+		// satisfies …"): a missing one is a violation of the rule, reported with the construct class that lost an instance
+		c.add(rule, "missing:"+what, token.NoPos, "violated", fmt.Sprintf("found %d instance(s) of %s, the rule was confirmed on at least %d: a required construct is gone", got, what, min), true)
 		return false
 	}
 	return true
